@@ -193,6 +193,28 @@ Check C08_absolute_partial : forall dbg hp hpo hd b u,
   parse_url dbg hp hpo hd None (Some b) (utf8_lossy (ser u)) = POk u.
 Print Assumptions C08_absolute_partial.
 
+(* URLs with authority: the shape premise is free (trimming cannot reach "scheme://", whatever follows), so for
+   them the law is EXACTLY C02's re-parse identity - nothing else is missing.  (C02 in this tree proves re-parsing
+   for the two classes below only; any further class it proves transfers through this theorem.) *)
+Theorem C08_absolute_shape_any : forall sch rest, scheme_canon sch = true ->
+  abs_shape (sch ++ 58 :: 47 :: 47 :: rest) = true.
+Proof. exact abs_shape_slashes_any. Qed.
+Print Assumptions C08_absolute_shape_any.
+Theorem C08_absolute_auth_partial : forall dbg hp hpo hd b u sch rest,
+  Fixpoint_of_reparse dbg hp hpo hd u -> utf8_lossy (ser u) = sch ++ 58 :: 47 :: 47 :: rest -> scheme_canon sch = true ->
+  join dbg hp hpo hd b (utf8_lossy (ser u)) = POk u.
+Proof. exact absolute_of_reparse_auth. Qed.
+Check C08_absolute_auth_partial : forall dbg hp hpo hd b u sch rest,
+  parse_url dbg hp hpo hd None None (utf8_lossy (ser u)) = POk u ->
+  utf8_lossy (ser u) = sch ++ 58 :: 47 :: 47 :: rest -> scheme_canon sch = true ->
+  parse_url dbg hp hpo hd None (Some b) (utf8_lossy (ser u)) = POk u.
+Print Assumptions C08_absolute_auth_partial.
+Example C08_absolute_auth_inhabited :
+  let u := hier_url (B "http://h") 4 7 7 8 HI_Domain None [B "a"] (B "b") (Some (B "q")) (Some (B "f")) in
+  toy_parse "http://h/a/b?q#f" = POk u /\ Fixpoint_of_reparse true toy_hp toy_hp toy_hd u
+  /\ utf8_lossy (ser u) = B "http" ++ 58 :: 47 :: 47 :: B "h/a/b?q#f" /\ scheme_canon (B "http") = true.
+Proof. vm_compute. repeat split. Qed.
+
 (* the two classes where C02 proved re-parsing: opaque paths and authority-less '/'-led paths *)
 Theorem C08_absolute_opaque : forall dbg hp hpo hd ovr b sch P q f, opaque_ok sch P q f ->
   parse_url dbg hp hpo hd ovr (Some b) (opaque_ser sch P q f) = POk (opaque_url sch P q f).
